@@ -6,7 +6,7 @@ vars == <<phase, l>>
 Budget == 15000     \* milliseconds per construction / call under the configured limits
 
 TInit == phase = "idle" /\ l = 1
-Ev(r) == Begin(r) \/ Build(r, Budget) \/ Call(r, Budget) \/ End(r) \/ (r.ev = "Init" /\ UNCHANGED phase)
+Ev(r) == Begin(r) \/ Build(r, Budget) \/ Call(r, Budget) \/ TCall(r, Budget) \/ End(r) \/ (r.ev = "Init" /\ UNCHANGED phase)
 TNext == l <= Len(Rec) /\ l' = l + 1 /\ Ev(Rec[l])
 TSpec == TInit /\ [][TNext]_vars
 Accepted ==
